@@ -182,13 +182,12 @@ func (h *verifScn) inject(where string) {
 			h.settle()
 		}
 	case 8:
-		if h.ackRegistered(1) {
-			h.acked[1] = true
+		for k := 0; k < 2; k++ {
+			if h.ackRegistered(k) {
+				h.acked[k] = true
+			}
 		}
 		h.e.NotifyAcks([]int64{h.ids[1], h.ids[0]})
-		if h.ackRegistered(0) {
-			// both were registered: NotifyAcks closes both
-		}
 	}
 }
 
